@@ -2,9 +2,10 @@
    and the decidable trigger of C09-F1 (same definition the theorems use). -/
 import AriadneModel.Driver.Wire
 import AriadneModel.Model.Prune
+import AriadneModel.Model.PruneDoc
 
 open Lean (Json)
-open Ariadne Ariadne.Wire Ariadne.Prune
+open Ariadne Ariadne.Wire Ariadne.Prune Ariadne.PruneDoc
 
 def strList (j : Json) : Except String (List String) := do
   let arr ← j.getArr?
@@ -76,6 +77,60 @@ def encOutput : Option Output → Json
       ("inputsEnumImport", jStrs o.inputsEnumImport), ("clientInputs", jStrs o.clientInputs),
       ("clientEnums", jStrs o.clientEnums)]
 
+/-! ### the document side (Model/PruneDoc.lean) -/
+
+/-- a variable type: `"T"` named, `["l", t]` list, `["n", t]` non-null -/
+partial def decTypeNode (j : Json) : Except String TypeNode := do
+  match j with
+  | .str n => pure (.named n)
+  | _ =>
+    let pr ← j.getArr?
+    if h : pr.size = 2 then
+      let k ← pr[0].getStr?
+      let t ← decTypeNode pr[1]
+      match k with
+      | "l" => pure (.list t)
+      | "n" => pure (.nonNull t)
+      | _ => throw s!"bad type node kind {k}"
+    else throw "type node: pair expected"
+
+def decKind : String → Except String Kind
+  | "input" => pure .input
+  | "enum" => pure .enum
+  | "scalar" => pure .scalar
+  | "other" => pure .other
+  | s => throw s!"bad kind {s}"
+
+def decKinds (j : Json) : Except String (List (Name × Kind)) := do
+  let arr ← (← j.getObjVal? "kinds").getArr?
+  arr.toList.mapM fun p => do
+    let pr ← p.getArr?
+    if h : pr.size = 2 then pure (← pr[0].getStr?, ← decKind (← pr[1].getStr?))
+    else throw "kinds: pair expected"
+
+def decDocOp (j : Json) : Except String DocOp := do
+  let vars ← (← (← j.getObjVal? "vars").getArr?).toList.mapM decTypeNode
+  pure { vars := vars, resultEnums := ← fieldStrList j "re", unpacked := ← fieldStrList j "unpacked" }
+
+def decFragDef (j : Json) : Except String FragDef := do
+  pure { name := ← fieldStr j "name", enums := ← fieldStrList j "enums" }
+
+def decDocInput (j : Json) : Except String DocInput := do
+  let inputs ← decInputs j
+  let enums ← fieldStrList j "enums"
+  let ops ← (← (← j.getObjVal? "ops").getArr?).toList.mapM decDocOp
+  let frags ← (← (← j.getObjVal? "frags").getArr?).toList.mapM decFragDef
+  let ci ← fieldOptStrList j "customInputs"
+  let ce ← fieldOptStrList j "customEnums"
+  pure { kinds := ← decKinds j, inputs := inputs, enums := enums.map (fun n => ⟨n, ""⟩), ops := ops, frags := frags,
+         allInputs := ← fieldBool j "allInputs", allEnums := ← fieldBool j "allEnums",
+         customOps := boolD j "customOps" false, customInputs := ci.getD [], customEnums := ce.getD [] }
+
+def encErr : Err → Json
+  | .argNotFound n => Json.mkObj [("error", "ParsingError"), ("detail", s!"Argument type {n} not found in schema.")]
+  | .argIncorrect n => Json.mkObj [("error", "ParsingError"), ("detail", s!"Incorrect argument type {n}")]
+  | .fuel => Json.mkObj [("error", "out-of-fuel")]
+
 def handle (j : Json) : Except String Json := do
   let op ← fieldStr j "op"
   match op with
@@ -106,6 +161,33 @@ def handle (j : Json) : Except String Json := do
   | "trigger" =>
     let x ← decInput j
     pure (Json.bool (trigCustomOpsPruned x))
+  | "generateDoc" =>
+    let x ← decDocInput j
+    match generateDoc x with
+    | .ok o =>
+      -- the module is written iff `_generate_fragments` does not return early
+      let written := match toInput x with
+        | .ok i => i.fragEnums.isSome
+        | .error _ => false
+      pure ((encOutput (some o)).setObjVal! "fragmentsWritten" (Json.bool written))
+    | .error e => pure (encErr e)
+  | "triggerDoc" =>
+    let x ← decDocInput j
+    match toInput x with
+    | .ok i => pure (Json.bool (trigCustomOpsPruned i))
+    | .error e => pure (encErr e)
+  | "varsUse" =>
+    let kinds ← decKinds j
+    let vars ← (← (← j.getObjVal? "vars").getArr?).toList.mapM decTypeNode
+    match varsUse (fun n => (kinds.lookup n).getD .missing) vars with
+    | .ok a => pure (Json.mkObj [("usedInputs", jStrs a.usedInputs), ("usedEnums", jStrs a.usedEnums)])
+    | .error e => pure (encErr e)
+  | "fragments" =>
+    let frags ← (← (← j.getObjVal? "frags").getArr?).toList.mapM decFragDef
+    let unpacked ← fieldStrList j "unpacked"
+    match fragmentsEnums frags unpacked with
+    | none => pure Json.null
+    | some es => pure (jStrs es)
   | _ => throw s!"unknown op {op}"
 
 def main : IO Unit := Ariadne.Wire.loop handle
